@@ -1,250 +1,32 @@
 //! C07 - transaction tokens map one-to-one onto open pre-authorisations.
 use crate::client::*;
-use crate::sim::Sh;
-use crate::simterm::*;
+use crate::hist::*;
+use crate::simterm::Outcome;
 use crate::util::*;
 use serde_json::json;
-use std::cell::RefCell;
-use std::rc::Rc;
-use vcore::dbx::{self, Ctx};
+use vcore::dbx;
 use vcore::report::*;
 
-pub struct PolSt {
-    pub op: Op,
-    pub tracker: Tracker,
-    /// (exchange, outcome, receipt issued by a successful reservation)
-    pub chosen: Vec<(Xch, Outcome, Option<u32>)>,
-    pub lazy: bool,
-}
-
-pub struct LazyPolicy {
-    pub st: Rc<RefCell<PolSt>>,
-}
-
-impl Policy for LazyPolicy {
-    fn on_command(&mut self, t: &mut TermState, ctx: &mut Ctx, req: &ReqRec) -> Vec<Step> {
-        let mut st = self.st.borrow_mut();
-        let op = st.op.clone();
-        let x = st.tracker.classify(t.table, &op, req);
-        let outcome = if x == Xch::Main && st.lazy {
-            match req.key.as_str() {
-                "Reservation" => [Outcome::Ok, Outcome::Abort(0x6c), Outcome::Abort(0xfc), Outcome::NoStatus][ctx.any(4, "reservation-outcome")].clone(),
-                "PartialReversal" => [Outcome::Ok, Outcome::Abort(0x6c)][ctx.any(2, "commit-outcome")].clone(),
-                "PreAuthReversal" => [Outcome::Ok, Outcome::Abort(0xb4)][ctx.any(2, "cancel-outcome")].clone(),
-                _ => Outcome::Ok,
-            }
-        } else {
-            Outcome::Ok
-        };
-        let issued = if req.key == "Reservation" && outcome == Outcome::Ok { Some(t.free_receipt()) } else { None };
-        st.chosen.push((x, outcome.clone(), issued));
-        default_script(t, req, &outcome, 1)
-    }
-}
-
-pub fn ops() -> Vec<Op> {
+pub fn ops(tokens: &[&str]) -> Vec<Op> {
     let mut v = vec![];
-    for t in ["A", "B", "C"] {
-        v.push(Op::Begin(t.into()));
+    for t in tokens {
+        v.push(Op::Begin(t.to_string()));
     }
-    for t in ["A", "B", "C"] {
-        v.push(Op::Commit(t.into(), 0));
-        v.push(Op::Commit(t.into(), 2500));
+    for t in tokens {
+        v.push(Op::Commit(t.to_string(), 0));
+        v.push(Op::Commit(t.to_string(), 2500));
     }
-    for t in ["A", "B", "C"] {
-        v.push(Op::Cancel(t.into()));
+    for t in tokens {
+        v.push(Op::Cancel(t.to_string()));
     }
     v.push(Op::ReadCard);
     v
 }
 
-struct Trace {
-    lines: Vec<String>,
-}
-
-/// one history; returns the problems found (empty = the history conforms)
-fn history(ctx: &mut Ctx, max: usize, first: usize, depth: usize, acc: &mut Acc) -> (Vec<String>, Vec<String>) {
-    let table: &'static vcore::layout::Table = vcore::layout::shipped_static();
-    let all_ops = ops();
-    let sh: Sh = Rc::new(RefCell::new(std::mem::replace(ctx, Ctx::new(vec![], vec![], 0))));
-    let st = Rc::new(RefCell::new(PolSt { op: Op::Configure, tracker: Tracker::new(), chosen: vec![], lazy: false }));
-    let mut tr = Trace { lines: vec![] };
-    let mut problems: Vec<String> = vec![];
-    {
-        let sim = Sim::new(sh.clone(), Box::new(LazyPolicy { st: st.clone() }));
-        let mut cfg = base_config();
-        cfg.transactions_max_num = max;
-        match new_feig(&sim, cfg.clone()) {
-            Err(e) => problems.push(e),
-            Ok(mut feig) => {
-                st.borrow_mut().lazy = true;
-                let mut model = Model { open: Default::default(), max };
-                let mut closed_once: Vec<String> = vec![];
-                for step in 0..depth {
-                    let oi = if step == 0 { first } else { sh.borrow_mut().any(all_ops.len(), "op") };
-                    let op = all_ops[oi].clone();
-                    {
-                        let mut s = st.borrow_mut();
-                        s.op = op.clone();
-                        s.tracker.start_op();
-                        s.chosen.clear();
-                    }
-                    let (r0, e0) = sim.w.borrow().t.traffic_marker();
-                    let res = run_op(&sim, &mut feig, &op);
-                    acc.count("transitions", 1);
-                    let w = sim.w.borrow();
-                    let new: Vec<ReqRec> = w.t.reqs[r0..].to_vec();
-                    let (_, e1) = w.t.traffic_marker();
-                    let chosen = st.borrow().chosen.clone();
-                    tr.lines.push(format!(
-                        "{}: {} -> {} | requests: [{}] | terminal outcomes: {:?}",
-                        step,
-                        op.label(),
-                        res.short(),
-                        new.iter().map(|r| format!("{} {}", r.key, show_req(&table, &r.key, &r.val))).collect::<Vec<_>>().join("; "),
-                        chosen.iter().map(|(x, o, i)| format!("{x:?}:{o:?}{}", i.map(|r| format!("(receipt {r})")).unwrap_or_default())).collect::<Vec<_>>()
-                    ));
-                    let mut bad = |s: String| problems.push(format!("step {step} {}: {s}", op.label()));
-                    let no_traffic = new.is_empty() && e1 == e0;
-                    let cleanup_expected = |new: &[ReqRec], from: usize, bad: &mut dyn FnMut(String)| {
-                        // P1 (nothing pending in this check) then P3
-                        let rest = &new[from..];
-                        if rest.len() != 2 || rest[0].key != "PartialReversal" || rest[0].val.as_ref() != Some(&expect_pending_query(&table)) || rest[1].key != "EndOfDay" || rest[1].val.as_ref() != Some(&expect_end_of_day(&cfg)) {
-                            bad(format!("no transaction is left open: expected the pending query and end-of-day after the operation, got [{}]", rest.iter().map(|r| r.key.clone()).collect::<Vec<_>>().join(", ")));
-                        }
-                    };
-                    match &op {
-                        Op::Begin(t) => {
-                            if model.open.len() >= model.max || model.open.contains_key(t) {
-                                acc.count("refusals", 1);
-                                if model.open.len() >= model.max && model.max > 0 {
-                                    acc.count("w_refused_at_max", 1);
-                                }
-                                if !matches!(res.err(), Some((ErrClass::ActiveTransaction, _))) {
-                                    bad(format!("must be refused with ActiveTransaction (open: {:?}, max {}), got {}", model.open, model.max, res.short()));
-                                }
-                                if !no_traffic {
-                                    bad("a refused call must not cause any traffic".into());
-                                }
-                            } else {
-                                if new.len() != 1 || new[0].key != "Reservation" || new[0].val.as_ref() != Some(&expect_reservation(&table, &cfg, t)) {
-                                    bad(format!("expected exactly one Reservation {}", show_req(&table, "Reservation", &Some(expect_reservation(&table, &cfg, t)))));
-                                }
-                                match chosen.first() {
-                                    Some((Xch::Main, Outcome::Ok, Some(r))) => {
-                                        if !res.is_ok() {
-                                            bad(format!("the terminal issued receipt {r}: begin must succeed, got {}", res.short()));
-                                        }
-                                        model.open.insert(t.clone(), *r as u64);
-                                        if closed_once.contains(t) {
-                                            acc.count("w_token_reused", 1);
-                                        }
-                                        if model.open.len() == 3 {
-                                            acc.count("w_three_open", 1);
-                                        }
-                                    }
-                                    Some((Xch::Main, Outcome::Abort(0xfc), _)) => {
-                                        if !matches!(res.err(), Some((ErrClass::NeedsPinEntry, _))) {
-                                            bad(format!("abort 0xFC must give NeedsPinEntry, got {}", res.short()));
-                                        }
-                                    }
-                                    Some((Xch::Main, Outcome::Abort(c), _)) => {
-                                        if !matches!(res.err(), Some((ErrClass::Aborted(x), _)) if x == c) {
-                                            bad(format!("abort {c:#x} must fail identifying the code, got {}", res.short()));
-                                        }
-                                    }
-                                    Some((Xch::Main, Outcome::NoStatus, _)) => {
-                                        if res.is_ok() || res.err().is_none() {
-                                            bad(format!("completion without a receipt number must fail, got {}", res.short()));
-                                        }
-                                    }
-                                    other => bad(format!("the reservation never reached the terminal ({other:?})")),
-                                }
-                            }
-                        }
-                        Op::Commit(t, _) | Op::Cancel(t) => {
-                            if !model.open.contains_key(t) {
-                                acc.count("refusals", 1);
-                                if !matches!(res.err(), Some((ErrClass::UnknownToken(x), _)) if x == t) {
-                                    bad(format!("must be refused with UnknownToken({t}), got {}", res.short()));
-                                }
-                                if !no_traffic {
-                                    bad("a refused call must not cause any traffic".into());
-                                }
-                            } else {
-                                let oldest = model.open.iter().min_by_key(|(_, r)| **r).map(|(k, _)| k.clone());
-                                if model.open.len() >= 2 && oldest.as_ref() == Some(t) {
-                                    acc.count("w_older_of_two", 1);
-                                }
-                                let r = model.open.remove(t).unwrap();
-                                closed_once.push(t.clone());
-                                let (key, want) = match &op {
-                                    Op::Commit(_, a) => ("PartialReversal", expect_partial_reversal(&table, &cfg, t, r, *a)),
-                                    _ => ("PreAuthReversal", expect_preauth_reversal(&table, &cfg, r)),
-                                };
-                                if new.is_empty() || new[0].key != key || new[0].val.as_ref() != Some(&want) {
-                                    bad(format!("must act on exactly this token's receipt: expected first request {key} {}", show_req(&table, key, &Some(want.clone()))));
-                                }
-                                match chosen.first() {
-                                    Some((Xch::Main, Outcome::Ok, _)) => {
-                                        if model.open.is_empty() {
-                                            cleanup_expected(&new, 1, &mut bad);
-                                        } else if new.len() != 1 {
-                                            bad(format!("other transactions are open: no further requests expected, got {}", new.len() - 1));
-                                        }
-                                        if !res.is_ok() {
-                                            bad(format!("the terminal completed the exchange: expected success, got {}", res.short()));
-                                        }
-                                    }
-                                    Some((Xch::Main, Outcome::Abort(c), _)) => {
-                                        if !matches!(res.err(), Some((ErrClass::Aborted(x), _)) if x == c) {
-                                            bad(format!("abort {c:#x} must fail identifying the code, got {}", res.short()));
-                                        }
-                                        // whether a clean-up follows an aborted commit is not specified
-                                        for q in &new[1..] {
-                                            if !["PartialReversal", "EndOfDay", "PreAuthReversal"].contains(&q.key.as_str()) {
-                                                bad(format!("unexpected request {} after the abort", q.key));
-                                            }
-                                        }
-                                    }
-                                    other => bad(format!("the request never reached the terminal ({other:?})")),
-                                }
-                            }
-                        }
-                        Op::ReadCard => {
-                            if new.len() != 1 || new[0].key != "ReadCard" {
-                                bad(format!("expected exactly one ReadCard request, got [{}]", new.iter().map(|r| r.key.clone()).collect::<Vec<_>>().join(", ")));
-                            }
-                        }
-                        Op::Configure => {}
-                    }
-                    drop(w);
-                    // the client's map equals the model's
-                    let snap: Vec<(String, u64)> = feig.verif_snapshot().0.into_iter().map(|(k, v)| (k, v as u64)).collect();
-                    let want: Vec<(String, u64)> = model.open.iter().map(|(k, v)| (k.clone(), *v)).collect();
-                    if snap != want {
-                        problems.push(format!("step {step} {}: the client's open transactions {snap:?} differ from the model's {want:?}", op.label()));
-                    }
-                    if sim.w.borrow().t.conns.len() != 1 {
-                        problems.push(format!("step {step} {}: the client reconnected although no exchange failed", op.label()));
-                    }
-                    acc.set("states", h64(&(max, &snap, &sim.w.borrow().t.ledger)));
-                    if !problems.is_empty() {
-                        break;
-                    }
-                }
-                drop(feig);
-            }
-        }
-        drop(sim);
-    }
-    *ctx = Rc::try_unwrap(sh).ok().expect("context still shared").into_inner();
-    (problems, tr.lines)
-}
-
 pub fn run(run: &RunInfo) -> Summary {
     let depth = if run.thorough() { 5 } else { 4 };
-    let nops = ops().len();
+    let all_ops = ops(&["A", "B", "C"]);
+    let nops = all_ops.len();
     let mut work: Vec<(usize, usize)> = vec![];
     for max in 0..=3usize {
         for first in 0..nops {
@@ -256,8 +38,19 @@ pub fn run(run: &RunInfo) -> Summary {
         if skip_for_replay(run, &format!("c07/max={max}/first={first}/")) {
             return;
         }
+        let p = HistParams {
+            max,
+            depth,
+            ops: all_ops.clone(),
+            dangling: None,
+            reservation_menu: vec![Outcome::Ok, Outcome::Abort(0x6c), Outcome::Abort(0xfc), Outcome::NoStatus],
+            commit_menu: vec![Outcome::Ok, Outcome::Abort(0x6c)],
+            cancel_menu: vec![Outcome::Ok, Outcome::Abort(0xb4)],
+            eod_menu: vec![Eod::Completion],
+        };
         let st = dbx::explore(0, 200_000_000, |ctx| {
-            let (problems, trace) = history(ctx, max, first, depth, acc);
+            let o = history(ctx, &p, first, acc);
+            let (problems, trace) = (o.c07, o.trace);
             acc.count("executions", 1);
             if !problems.is_empty() {
                 let choices = ctx.choices();
@@ -308,30 +101,3 @@ pub fn run(run: &RunInfo) -> Summary {
     }
 }
 
-pub fn bench() {
-    use std::time::Instant;
-    let t0 = Instant::now();
-    for _ in 0..200 {
-        let _ = vcore::layout::shipped();
-    }
-    println!("shipped(): {:?} each", t0.elapsed() / 200);
-    let t0 = Instant::now();
-    for _ in 0..200 {
-        let rt = tokio::runtime::Builder::new_current_thread().enable_time().start_paused(true).build().unwrap();
-        drop(rt);
-    }
-    println!("runtime build+drop: {:?} each", t0.elapsed() / 200);
-    let t0 = Instant::now();
-    let mut acc = Acc::new();
-    for _ in 0..200 {
-        let mut ctx = Ctx::new(vec![], vec![], 0);
-        let _ = history(&mut ctx, 1, 0, 0, &mut acc);
-    }
-    println!("Sim::new + Feig::new (depth 0): {:?} each", t0.elapsed() / 200);
-    let t0 = Instant::now();
-    for _ in 0..200 {
-        let mut ctx = Ctx::new(vec![], vec![], 0);
-        let _ = history(&mut ctx, 1, 0, 4, &mut acc);
-    }
-    println!("history depth 4: {:?} each", t0.elapsed() / 200);
-}
